@@ -684,3 +684,64 @@ Proof.
     match goal with |- bind (bind ?x _) _ = _ => destruct x end; reflexivity.
 Qed.
 (* END *)
+
+(* ---------- construct.rs: the constructors ---------- *)
+(* BEGIN Matrix_new *)
+Lemma gen_Matrix_new {A} c : @G_Matrix_new A c = Val new_matrix.
+Proof. reflexivity. Qed.
+(* END *)
+(* BEGIN Matrix_with_capacity *)
+Lemma gen_Matrix_with_capacity {A} c n : @G_Matrix_with_capacity A c n = Val new_matrix.
+Proof. reflexivity. Qed.
+(* END *)
+(* BEGIN Matrix_with_value *)
+Lemma gen_Matrix_with_value {A} c es sh (v : A) : 0 <= imax c -> G_Matrix_with_value c es sh v = with_value c es (sh_nrows sh) (sh_ncols sh) v.
+Proof.
+  intros Hc. unfold G_Matrix_with_value, with_value, decide_ctor, decide_shape. rewrite gen_Shape_try_to_axis_shape. cbn [bind].
+  destruct sh as [r cl]. cbn [sh_nrows sh_ncols].
+  destruct (Shape_try_to_axis_shape c (mkShape r cl) RowMajor) as [s|e]; [|reflexivity].
+  rewrite gen_AxisShape_size. destruct (AxisShape_size c s) as [n|w|w]; cbn [bind]; try reflexivity.
+  rewrite gen_Matrix_check_size by exact Hc. cbn [bind]. destruct (check_size c es n); reflexivity.
+Qed.
+(* END *)
+(* BEGIN Matrix_with_default *)
+Lemma gen_Matrix_with_default {A} c es (d : A) sh : 0 <= imax c -> G_Matrix_with_default c es d sh = with_default c es d (sh_nrows sh) (sh_ncols sh).
+Proof.
+  intros Hc. unfold G_Matrix_with_default, with_default, with_value, decide_ctor, decide_shape. rewrite gen_Shape_try_to_axis_shape. cbn [bind].
+  destruct sh as [r cl]. cbn [sh_nrows sh_ncols].
+  destruct (Shape_try_to_axis_shape c (mkShape r cl) RowMajor) as [s|e]; [|reflexivity].
+  rewrite gen_AxisShape_size. destruct (AxisShape_size c s) as [n|w|w]; cbn [bind]; try reflexivity.
+  rewrite gen_Matrix_check_size by exact Hc. cbn [bind]. destruct (check_size c es n) as [sz|e] eqn:E; [|reflexivity].
+  unfold vec_resize_with, vec_with_capacity. cbn [zlen length Z.of_nat app].
+  destruct (sz <=? 0) eqn:L.
+  - (* sz <= 0: both lists are empty *)
+    unfold zfirstn, zrepeat. cbn [bind]. replace (Z.to_nat sz) with 0%nat by lia. reflexivity.
+  - rewrite Z.sub_0_r. reflexivity.
+Qed.
+(* END *)
+(* BEGIN Matrix_with_initializer *)
+(* pushing f(index k) for k = 0 .. n-1 onto the vector is the left-to-right map *)
+Lemma for_push_map {A} c (f : Index -> A) o s : forall (l : list Z) (acc : list A),
+  for_res l acc (fun index data =>
+    let* r := G_Index_from_flattened c index o s in Val (vec_push data (f r)))
+  = let* ys := map_res (fun i => let* ix := Index_from_flattened i o s in Val (f ix)) l in Val (acc ++ ys).
+Proof.
+  induction l as [|i l IH]; intros acc; cbn [for_res map_res bind].
+  - rewrite app_nil_r. reflexivity.
+  - rewrite gen_Index_from_flattened. destruct (Index_from_flattened i o s) as [ix|w|w]; cbn [bind]; try reflexivity.
+    rewrite IH. destruct (map_res _ l) as [ys|w|w]; cbn [bind]; try reflexivity.
+    unfold vec_push. rewrite <- app_assoc. reflexivity.
+Qed.
+
+Lemma gen_Matrix_with_initializer {A} c es sh (f : Index -> A) : 0 <= imax c ->
+  G_Matrix_with_initializer c es sh f = with_initializer c es f (sh_nrows sh) (sh_ncols sh).
+Proof.
+  intros Hc. unfold G_Matrix_with_initializer, with_initializer, decide_ctor, decide_shape. rewrite gen_Shape_try_to_axis_shape. cbn [bind].
+  destruct sh as [r cl]. cbn [sh_nrows sh_ncols].
+  destruct (Shape_try_to_axis_shape c (mkShape r cl) RowMajor) as [s|e]; [|reflexivity].
+  rewrite gen_AxisShape_size. destruct (AxisShape_size c s) as [n|w|w]; cbn [bind]; try reflexivity.
+  rewrite gen_Matrix_check_size by exact Hc. cbn [bind]. destruct (check_size c es n) as [sz|e]; [|reflexivity].
+  cbv zeta. rewrite (for_push_map c f RowMajor s (zseq sz) (vec_with_capacity sz)).
+  cbn [bind]. destruct (map_res _ (zseq sz)); reflexivity.
+Qed.
+(* END *)
